@@ -87,6 +87,7 @@ class Request:
         self.unplanned = []
         self.sources = []
         self.active = 0  # harness coroutines between enter and exit marks
+        self.slow_cancels = 0
         self.root = root
 
     def log(self, *f):
@@ -94,8 +95,10 @@ class Request:
             self.sim.log(*f)
 
     # --- externals ---------------------------------------------------------------------
-    def ext(self, label, outcome, hanging=False, kind="res"):
-        return self.sim.external(f"{kind}:{self.idx}:{label}", kind, outcome, hanging, self.idx)
+    def ext(self, label, outcome, hanging=False, kind="res", pos=None):
+        e = self.sim.external(f"{kind}:{self.idx}:{label}", kind, outcome, hanging, self.idx)
+        e.pos = pos
+        return e
 
     # --- value delivery ----------------------------------------------------------------
     def deliver_value(self, t, v, path):
@@ -150,7 +153,7 @@ class Request:
             if outcome[0] == "raise":  # only possible when forced sync
                 return outcome[1]  # an Exception instance fails the same position
             return outcome[1]
-        return self.ext("item" + pstr(ipath), outcome, kind="item").fut
+        return self.ext("item" + pstr(ipath), outcome, kind="item", pos=ipath).fut
 
     def deliver_list(self, item_t, values, path):
         lp = self.planner.lists.get(path)
@@ -199,7 +202,7 @@ class Request:
                         if i < len(lp.anext) and lp.anext[i]:
                             try:
                                 await req.ext(f"anext{pstr(path)}#{i}", ("value", None),
-                                              kind="anext").fut
+                                              kind="anext", pos=path).fut
                             except asyncio.CancelledError:
                                 src.last_anext = "cancelled"
                                 raise
@@ -224,7 +227,7 @@ class Request:
                         src.aclose_calls += 1
                         if lp.close == "slow":
                             await req.ext(f"aclose{pstr(path)}", ("value", None),
-                                          kind="aclose").fut
+                                          kind="aclose", pos=path).fut
                 finally:
                     src.in_aclose -= 1
                     src.finalized = True
@@ -270,11 +273,13 @@ class Request:
             return outcome[1]
         label = pstr(path) + (f"~{n}" if n else "")
         if delivery == "future":
-            return self.ext(label, outcome, hanging).fut
+            return self.ext(label, outcome, hanging, pos=path).fut
         if delivery == "coro0":
             return self._coro0(outcome, label)
+        if delivery == "slowc":
+            return self._coro_slow(outcome, label, hanging, path)
         k = 1 if delivery == "coro1" else 2
-        return self._coro(outcome, label, k, hanging)
+        return self._coro(outcome, label, k, hanging, path)
 
     async def _coro0(self, outcome, label):
         self.active += 1
@@ -285,12 +290,27 @@ class Request:
         finally:
             self.active -= 1
 
-    async def _coro(self, outcome, label, k, hanging):
+    async def _coro(self, outcome, label, k, hanging, path=None):
         self.active += 1
         try:
             for j in range(k - 1):
-                await self.ext(f"{label}.{j}", ("value", None)).fut
-            return await self.ext(f"{label}.{k - 1}", outcome, hanging).fut
+                await self.ext(f"{label}.{j}", ("value", None), pos=path).fut
+            return await self.ext(f"{label}.{k - 1}", outcome, hanging, pos=path).fut
+        finally:
+            self.active -= 1
+
+    async def _coro_slow(self, outcome, label, hanging, path):
+        """A resolver whose cancellation takes time: cleanup awaits another external."""
+        self.active += 1
+        try:
+            try:
+                return await self.ext(f"{label}.0", outcome, hanging, pos=path).fut
+            except asyncio.CancelledError:
+                self.slow_cancels += 1
+                self.log("cancel-begin", self.idx, pstr(path))
+                await self.ext(f"{label}.cleanup", ("value", None), kind="cleanup", pos=path).fut
+                self.log("cancel-end", self.idx, pstr(path))
+                raise
         finally:
             self.active -= 1
 
@@ -321,7 +341,7 @@ class Request:
             if outcome[0] == "raise":
                 raise outcome[1]
             return outcome[1]
-        return self.ext("rt" + pstr(path), outcome, kind="rt").fut
+        return self.ext("rt" + pstr(path), outcome, kind="rt", pos=path).fut
 
     def is_type_of(self, tname, value, info):
         path = value["__path"]
@@ -341,7 +361,7 @@ class Request:
             if outcome[0] == "raise":
                 raise outcome[1]
             return outcome[1]
-        return self.ext(f"ito{pstr(path)}@{tname}", outcome, kind="ito").fut
+        return self.ext(f"ito{pstr(path)}@{tname}", outcome, kind="ito", pos=path).fut
 
 
 class ClassAsyncIter:
@@ -376,7 +396,8 @@ class ClassAsyncIter:
                 raise StopAsyncIteration
             if i < len(lp.anext) and lp.anext[i]:
                 try:
-                    await req.ext(f"anext{pstr(self.path)}#{i}", ("value", None), kind="anext").fut
+                    await req.ext(f"anext{pstr(self.path)}#{i}", ("value", None), kind="anext",
+                                  pos=self.path).fut
                 except asyncio.CancelledError:
                     src.last_anext = "cancelled"
                     raise
@@ -401,7 +422,8 @@ class ClassAsyncIter:
         try:
             self.closed = True
             if lp.close == "slow":
-                await req.ext(f"aclose{pstr(self.path)}", ("value", None), kind="aclose").fut
+                await req.ext(f"aclose{pstr(self.path)}", ("value", None), kind="aclose",
+                              pos=self.path).fut
             elif lp.close == "raises":
                 raise RuntimeError("aclose failed")
         finally:
